@@ -11,7 +11,7 @@
     magicBlock, compressBound are regenerated from the Go source. *)
 From Coq Require Import ZArith List Bool.
 From Hts Require Import Base.Prim Base.WrList Generated Model.Bgzf Model.Writer Model.WriterConc
-  Proofs.Bgzf Proofs.Writer Proofs.WriterConc Proofs.WriterThms Proofs.WrSkel.
+  Proofs.Bgzf Proofs.Writer Proofs.WriterConc Proofs.WriterThms Proofs.WrSkel Proofs.WriterTerm.
 Import ListNotations.
 Open Scope Z_scope.
 
@@ -31,6 +31,13 @@ Theorem bgzf_roundtrip :
     /\ has_eof (wr_out deflate crc32 lvl h s) = true.
 Proof. exact bgzf_roundtrip_gen. Qed.
 Print Assumptions bgzf_roundtrip.
+
+(** The sequential writer machine finishes every script (so the premise
+    [sdone s = true] above can always be met). *)
+Theorem writer_seq_terminates :
+  forall script, exists fuel, sdone (run_writer fuel script) = true.
+Proof. exact run_writer_terminates_ex. Qed.
+Print Assumptions writer_seq_terminates.
 
 (** Every writer concurrency wc, every schedule of the caller, the emitter
     and the compressor goroutines: when the caller has finished the script
